@@ -172,6 +172,19 @@ class StreamSession:
             raise RpcError("ProtocolError", "Stream has been closed or cancelled", "")
         if wire_stream_logger.isEnabledFor(logging.DEBUG):
             wire_stream_logger.debug("Stream exchange: sending input")
+        open_schema = self._input_schema if self._input_writer is not None else None
+        if open_schema is not None and not input.batch.schema.equals(open_schema, check_metadata=False):
+            # The input stream is already open with another schema and cannot
+            # carry this batch.  That is the caller's error, not a broken
+            # transport: end the stream in an orderly way (the server sees the
+            # end of input, we drain its output) so the connection stays in
+            # sync for the next call.
+            self.close()
+            raise RpcError(
+                "TypeError",
+                f"Input schema mismatch: this stream's input was opened with {open_schema}, got {input.batch.schema}",
+                "",
+            )
         try:
             self._write_batch(input)
         except _TRANSPORT_ERRORS as exc:
